@@ -114,6 +114,16 @@ def gen_scn(r, k, forced=None):
     c["gfreq"] = f.get("gfreq", r.choice([1, 2, 3, 4, 6])) if c["gfreq_explicit"] else c["freq"]
     c["it0"] = r.randint(0, 9) if r.random() < f.get("p_it0", 0.3) else 0
     c["binary"] = r.random() < 0.35          # format of the state files (formatted text or binary stream)
+    c["medium"] = "mem" if r.random() < 0.4 else "file"    # read back from the file, or from a memory buffer / a string
+    if r.random() < f.get("p_bigstep", 0.15):
+        # step numbers beyond int and beyond the integers a double holds exactly
+        c["it0"] = r.choice([2 ** 31 - 3, 2 ** 32 - 2, 2 ** 53 - 5, 2 ** 62 - 60]) + r.randint(0, 11)
+    if r.random() < 0.3:                     # frequencies that are not powers of two
+        c["freq"] = f.get("freq", r.choice([3, 3, 5, 6, 7, 12]))
+        if c["gfreq_explicit"]:
+            c["gfreq"] = f.get("gfreq", r.choice([3, 5, 6, 7, 12]))
+        else:
+            c["gfreq"] = c["freq"]
     nsteps = r.randint(8, 30)
     p_out = f.get("p_out", r.choice([0.0, 0.1, 0.25]))
     p_save = f.get("p_save", r.choice([0.0, 0.0, 0.08]))
@@ -233,7 +243,33 @@ def gen_scn(r, k, forced=None):
             boundary = True          # the step at which the state was written is computed again
         events.append(("step", boundary, zs))
     c["events"] = events
+    if r.random() < f.get("p_scale", 0.15) and all(v["kind"] == 0 for v in vars_) and not c["eb"] and not has_restart(c):
+        rescale(c, r.choice([-27, -13, 20, 27]))
     return c
+
+
+def rescale(c, k):
+    """the same scenario with every length multiplied by 2^k (exact): boundaries, widths, periods, positions, sigmas"""
+    m = 2.0 ** k
+    for v in c["vars"]:
+        for key in ("w", "lower", "upper", "sigma", "P", "c"):
+            if key in v:
+                v[key] *= m
+    ev = []
+    for e in c["events"]:
+        if e[0] == "step":
+            ev.append(("step", e[1], [z * m for z in e[2]]))
+        elif e[0] == "rebin":
+            ev.append(("rebin", [(nx, lo * m, up * m) for (nx, lo, up) in e[1]]))
+        elif e[0] == "reconf":
+            ev.append(("reconf", dict(e[1], sigmas=[t * m for t in e[1]["sigmas"]])))
+        else:
+            ev.append(e)
+    c["events"] = ev
+    c["scale"] = k
+    # (a state, formatted or binary, holds the grid boundaries as text with 14 significant digits: exact for the dyadic
+    # values at unit scale, not for these; a restart then moves the lattice by 1e-14 relative.  That is the state format,
+    # C03's subject: only histories without restarts are rescaled)
 
 
 def gen_par(r, c):
@@ -414,6 +450,7 @@ def scenario_text(c, dump=True):
     nstate = 0
     par = None
     fmt = "binary" if c.get("binary") else "text"
+    load = "load" if c.get("medium", "file") == "file" else ("loadbuf" if c.get("binary") else "loadstr")
     for e in c["events"]:
         if e[0] == "save":
             L.append("save %s c05.state" % fmt)
@@ -423,7 +460,7 @@ def scenario_text(c, dump=True):
             continue
         if e[0] == "reload":
             nstate += 1
-            L += ["save %s c05l%d.state" % (fmt, nstate), "load c05l%d.state" % nstate]
+            L += ["save %s c05l%d.state" % (fmt, nstate), "%s c05l%d.state" % (load, nstate)]
             continue
         if e[0] in ("restart", "rebin", "reconf"):
             # the state is written, a fresh instance reads it (for "rebin": with new boundaries and rebinGrids on; for
@@ -433,7 +470,7 @@ def scenario_text(c, dump=True):
             if e[0] == "reconf":
                 par = e[1]
             L += config_text(c, e[1], True, par) if e[0] == "rebin" else config_text(c, None, False, par)
-            L.append("load c05r%d.state" % nstate)
+            L.append("%s c05r%d.state" % (load, nstate))
             continue
         boundary, zs = e[1], e[2]
         for d, z in enumerate(zs):
